@@ -472,3 +472,113 @@ Proof.
   destruct (consult_fresh sig rs [] pc Hpos ltac:(constructor)) as (post & H1 & H2 & H3 & H4).
   cbn [List.length] in *. cbn. rewrite H1. cbn. auto.
 Qed.
+
+(* ---------- after ANY attempt the consulted choice points are exactly the stack's prefix ---------- *)
+
+(* generalisation of consult_fresh / consult_matching to an arbitrary stack: whatever was on the stack,
+   after consulting sig from index |pre| the stack is pre ++ post ++ rest with shape post = sig, where
+   rest (stale deeper digits) is non-empty only if every consulted position matched *)
+Lemma consult_prefix : forall sig rs pre tail pc,
+  Forall (fun p => 0 < snd p) sig -> valid pre -> valid tail ->
+  let s' := fst (consult sig rs (mkFc pc (pre ++ tail) (List.length pre))) in
+  exists post rest, fc_stack s' = pre ++ post ++ rest /\ shape post = sig /\ valid post /\ valid rest /\
+                    fc_pc s' = pc /\ (rest <> [] -> exists t, tail = t ++ rest /\ shape t = sig).
+Proof.
+  induction sig as [|[id c] sig IH]; intros rs pre tail pc Hpos Hvp Hvt; cbn [consult].
+  - exists [], tail. cbn. repeat split; auto; try constructor. intros _. exists []. split; reflexivity.
+  - inversion Hpos as [|? ? Hc Hsig]; subst. cbn [snd] in Hc.
+    assert (HI: Inv (mkFc pc (pre ++ tail) (List.length pre))).
+    { split; cbn [fc_stack fc_idx]; [apply Forall_app; split; auto | rewrite app_length; lia]. }
+    destruct (next_counter_inv id c (hd 0 rs) _ Hc HI) as ((Hv1 & Hi1) & v & Ev & Hvlt & d & Hd & Hdid & Hdc & Hdv).
+    destruct (next_counter id c (hd 0 rs) (mkFc pc (pre ++ tail) (List.length pre))) as [s1 o1] eqn:E1.
+    cbn [fst snd fc_idx] in *.
+    (* shape of s1's stack: pre ++ d :: tail1 where tail1 is the old tail's rest if matched, [] otherwise *)
+    assert (Hs1: fc_pc s1 = pc /\ fc_idx s1 = S (List.length pre) /\
+                 exists tail1, fc_stack s1 = pre ++ d :: tail1 /\ valid tail1 /\
+                               (tail1 <> [] -> exists d0, tail = d0 :: tail1 /\ d_id d0 = id /\ d_ceil d0 = c)).
+    { unfold next_counter in E1. cbn [fc_idx fc_stack fc_pc] in E1.
+      assert (Hlt: Nat.ltb (List.length (pre ++ tail)) (List.length pre) = false)
+        by (apply Nat.ltb_ge; rewrite app_length; lia).
+      rewrite Hlt in E1.
+      destruct tail as [|d0 tail0].
+      - rewrite app_nil_r in *. assert (En: nth_error pre (List.length pre) = None) by (apply nth_error_None; lia).
+        rewrite En, Nat.eqb_refl in E1.
+        assert (c =? 0 = false) as Hc0 by (apply N.eqb_neq; lia). rewrite Hc0 in E1. cbn [andb] in E1.
+        rewrite nth_error_app2 in E1 by lia. rewrite Nat.sub_diag in E1. cbn [nth_error d_count] in E1.
+        assert (hd 0 rs mod c < c) by (apply N.mod_lt; lia).
+        destruct (c <=? hd 0 rs mod c) eqn:El; [apply N.leb_le in El; lia|].
+        inversion E1; subst s1 o1. cbn [fc_stack fc_pc fc_idx] in *.
+        rewrite nth_error_app2 in Hd by lia. rewrite Nat.sub_diag in Hd. cbn in Hd. inversion Hd; subst d.
+        repeat split; auto. exists []. repeat split; auto; try constructor. intros Hne; congruence.
+      - rewrite nth_error_app2 in E1 by lia. rewrite Nat.sub_diag in E1. cbn [nth_error] in E1.
+        destruct (String.eqb (d_id d0) id && (d_ceil d0 =? c))%bool eqn:Eb.
+        + apply andb_true_iff in Eb as [Eb1 Eb2]. apply String.eqb_eq in Eb1. apply N.eqb_eq in Eb2.
+          assert (Hne: Nat.eqb (List.length pre) (List.length (pre ++ d0 :: tail0)) = false)
+            by (apply Nat.eqb_neq; rewrite app_length; cbn; lia).
+          rewrite Hne in E1. cbn [andb] in E1.
+          rewrite nth_error_app2 in E1 by lia. rewrite Nat.sub_diag in E1. cbn [nth_error] in E1.
+          pose proof (Forall_inv Hvt) as Hd0. pose proof (Forall_inv_tail Hvt) as Hvt0.
+          destruct (c <=? d_count d0) eqn:El; inversion E1; subst s1 o1; cbn [fc_stack fc_pc fc_idx] in *;
+            rewrite nth_error_app2 in Hd by lia; rewrite Nat.sub_diag in Hd; cbn in Hd; inversion Hd; subst d;
+            (repeat split; auto; exists tail0; repeat split; auto; intros _; exists d0; auto).
+        + assert (Hlen: List.length (firstn (List.length pre) (pre ++ d0 :: tail0)) = List.length pre)
+            by (rewrite firstn_length, app_length; cbn; lia).
+          rewrite Hlen, Nat.eqb_refl in E1.
+          assert (c =? 0 = false) as Hc0 by (apply N.eqb_neq; lia). rewrite Hc0 in E1. cbn [andb] in E1.
+          rewrite nth_error_app2 in E1 by lia. rewrite Hlen, Nat.sub_diag in E1. cbn [nth_error d_count] in E1.
+          assert (hd 0 rs mod c < c) by (apply N.mod_lt; lia).
+          destruct (c <=? hd 0 rs mod c) eqn:El; [apply N.leb_le in El; lia|].
+          inversion E1; subst s1 o1. cbn [fc_stack fc_pc fc_idx] in *.
+          assert (Hf: firstn (List.length pre) (pre ++ d0 :: tail0) = pre).
+          { rewrite firstn_app, Nat.sub_diag, firstn_all. cbn. apply app_nil_r. }
+          rewrite Hf in *.
+          rewrite nth_error_app2 in Hd by lia. rewrite Nat.sub_diag in Hd. cbn in Hd. inversion Hd; subst d.
+          repeat split; auto. exists []. repeat split; auto; try constructor. intros Hne; congruence. }
+    destruct Hs1 as (Hpc1 & Hidx1 & tail1 & Hst1 & Hvt1 & Hkeep).
+    assert (Hvd: valid (pre ++ [d])).
+    { apply Forall_app; split; auto. constructor; [|constructor]. rewrite Hdc, Hdv. exact Hvlt. }
+    assert (Es1: s1 = mkFc pc ((pre ++ [d]) ++ tail1) (List.length (pre ++ [d]))).
+    { destruct s1 as [p1 st1 i1]. cbn [fc_pc fc_stack fc_idx] in *. subst.
+      rewrite <- app_assoc. cbn. rewrite app_length. cbn. f_equal. lia. }
+    rewrite Es1.
+    specialize (IH (tl rs) (pre ++ [d]) tail1 pc Hsig Hvd Hvt1).
+    destruct (consult sig (tl rs) _) as [s2 os] eqn:E2. cbn [fst] in *.
+    destruct IH as (post & rest & H1 & H2 & H3 & H4 & H5 & H6).
+    exists (d :: post), rest. rewrite H1, <- !app_assoc. cbn [app].
+    split; [reflexivity|]. split; [cbn [shape map]; fold (shape post); rewrite H2, Hdid, Hdc; reflexivity|].
+    split; [constructor; auto; rewrite Hdc, Hdv; exact Hvlt|]. split; [exact H4|]. split; [exact H5|].
+    intros Hne. destruct (H6 Hne) as (t & Ht1 & Ht2).
+    assert (tail1 <> []) by (rewrite Ht1; destruct t; cbn; [exact Hne | discriminate]).
+    destruct (Hkeep H) as (d0 & Hd0 & Hid0 & Hc0).
+    exists (d0 :: t). split; [rewrite Hd0, Ht1; reflexivity|].
+    cbn [shape map]. fold (shape t). rewrite Ht2, Hid0, Hc0. reflexivity.
+Qed.
+
+(* after any attempt from any state with a valid stack: the stack starts with exactly the consulted
+   choice points; it is EXACTLY those (so `exhaustive` applies from the next attempt on) unless the old stack
+   was a strict extension of sig whose prefix matched everywhere (stale deeper digits of a longer earlier attempt) *)
+Lemma attempt_prefix_lemma pc sig rs s :
+  valid (fc_stack s) -> Forall (fun p => 0 < snd p) sig ->
+  let s' := fst (attempt pc sig rs s) in
+  fc_pc s' = pc /\ valid (fc_stack s') /\
+  exists post rest, fc_stack s' = post ++ rest /\ shape post = sig /\
+    (rest <> [] -> fc_pc s = pc /\ exists t, shape t = sig /\ List.length (fc_stack s) = List.length (t ++ rest)).
+Proof.
+  intros Hv Hpos. unfold attempt, begin_cs.
+  set (st0 := if String.eqb pc (fc_pc s) then fc_stack s else []).
+  assert (Hv0: valid st0) by (subst st0; destruct (String.eqb pc (fc_pc s)); [exact Hv | constructor]).
+  destruct (incr_spec st0 Hv0) as (Hv1 & Hs1 & _).
+  destruct (consult_prefix sig rs [] (fst (incr st0)) pc Hpos ltac:(constructor) Hv1)
+    as (post & rest & H1 & H2 & H3 & H4 & H5 & H6).
+  cbn [List.length app] in *.
+  split; [exact H5|]. split; [rewrite H1; apply Forall_app; split; auto|].
+  exists post, rest. split; [exact H1|]. split; [exact H2|].
+  intros Hne. destruct (H6 Hne) as (t & Ht1 & Ht2).
+  subst st0. destruct (String.eqb pc (fc_pc s)) eqn:Epc.
+  - apply String.eqb_eq in Epc. split; [auto|]. exists t. split; [exact Ht2|].
+    assert (List.length (fst (incr (fc_stack s))) = List.length (fc_stack s)).
+    { assert (List.length (shape (fst (incr (fc_stack s)))) = List.length (shape (fc_stack s))) by (rewrite Hs1; reflexivity).
+      unfold shape in H. rewrite !map_length in H. exact H. }
+    rewrite <- H, Ht1. reflexivity.
+  - cbn in Ht1. destruct t; destruct rest; cbn in Ht1; try discriminate. congruence.
+Qed.
